@@ -82,7 +82,9 @@ def sniff(raw, default):
 
 PIECES = ['<p class="é">ü', '€', 'Тест', '日本', ' plain ', '<input checked="${1}" disabled="disabled"/>', '\r\n', '\r',
           '<b title=\'ß\'>x</b>', '${"ÿ" + str(n)}', '&amp;&eacute;', '<!-- ç -->', 'ŠŽ', '<i lang="ru">жук</i>',
-          '<input checked="${0}">', ' tail']
+          '<input checked="${0}">', ' tail',
+          # characters whose bytes differ between look-alike codecs (ISO 8859-1 vs windows-1252: 0x80-0x9F; 8859-1 vs -15: 0xA4 ...)
+          '\x85\x93q\x94', '<b title="\x80\x9b">\x81\x8d</b>', '\xa4\xa6\xbc', '\u201cq\u201d \u2026']
 
 
 def gen_body(rng, enc):
